@@ -11,6 +11,8 @@ capsule model.
         flags = <capFree> <mark-free> ; v' = the transliteration (`D03b.enc`, `D03b.canon`): every set replaced by
         the list of its members in `Less` order (specification sort); unmodelled outside the carrier `D03b.G`
   c03.lessstricttotal <ety> <p>* → 0 | 1 | unmodelled     `Payload.lessStrictTotal` (members must be in the carrier)
+  c03.setwf <v>                  → 0 | 1 | unmodelled     `Payload.setWF` of a known set value (unmodelled: not a set
+                                                          payload, or a capsule type inside)
   c03.capsule <eq> <raw> <key> <id>*
                                  → <eqv bits> <rawEqv bits> <hash text hex>,* (<iteration order>)
         the capsule operations are: Equals a b := a % eq == b % eq (absent when eq = 0), RawEquals likewise
@@ -45,6 +47,11 @@ def canonStr (v : Value) : String :=
 def lessStrictTotalStr (e : Ty) (ms : List Payload) : String :=
   if !(ms.all fun p => inG e p) then "unmodelled" else b01 (Payload.lessStrictTotal e ms)
 
+def setWFStr (v : Value) : String :=
+  match v.ty, v.v with
+  | .set e, .sset ids vs => if !D03b.capFree e then "unmodelled" else b01 (Payload.setWF e ids vs)
+  | _, _ => "unmodelled"
+
 def capsOps (eq raw key : Nat) : CapsuleOps where
   equals := if eq = 0 then none else some fun a b => a % eq == b % eq
   rawEquals := if raw = 0 then none else some fun a b => a % raw == b % raw
@@ -69,6 +76,7 @@ def handleD03b : Handler := fun op args =>
     pure (" ".intercalate [HD03b.b01 v.ty.setFree, HD03b.b01 v.v.numTextsOk, HD03b.b01 v.v.quotable])
   | "c03.canon", [v] => do pure (HD03b.canonStr (← Value.ofSexp v))
   | "c03.lessstricttotal", ety :: ms => do pure (HD03b.lessStrictTotalStr (← Ty.ofSexp ety) (← ms.mapM Payload.ofSexp))
+  | "c03.setwf", [v] => do pure (HD03b.setWFStr (← Value.ofSexp v))
   | "c03.tiefree", ety :: ms => do pure (HD03b.tieFreeStr (← Ty.ofSexp ety) (← ms.mapM Payload.ofSexp))
   | "c03.capsule", eq :: raw :: key :: ids => do
     pure (HD03b.capsStr (← Sexp.decNat eq) (← Sexp.decNat raw) (← Sexp.decNat key) (← ids.mapM Sexp.decNat))
